@@ -51,6 +51,7 @@ MUTANTS = [
     ("C06", "detect", "specs/openapi/_hypothesis.py", "            elif value == \"..\":\n                parameters[key] = \"%2E%2E\"", "            elif value == \"..\":\n                parameters[key] = \"%2E\"", "'..' encoded as a single dot"),
     ("C06", "detect", "specs/openapi/serialization.py", "        if style == \"pipeDelimited\":\n            yield delimited(name, delimiter=\"|\")", "        if style == \"pipeDelimited\":\n            yield delimited(name, delimiter=\",\")", "pipeDelimited dispatched to the comma encoder"),
     ("C06", "detect", "specs/openapi/serialization.py", "            for func in reversed(functions):", "            for func in functions:", "conversions composed in the wrong order"),
+    ("C05", "detect", "cli/commands/run/context.py", "            and event.status in (Status.FAILURE, Status.ERROR)", "            and event.status in (Status.FAILURE,)", "an errored phase leaves the exit code at 0"),
     # ---- C07
     ("C07", "detect", FIL, "return any(filter_.match(ctx) for filter_ in self._includes)", "return all(filter_.match(ctx) for filter_ in self._includes)", "includes combined with all"),
     ("C07", "detect", FIL, "        return all(matcher.match(ctx) for matcher in self.matchers)", "        return any(matcher.match(ctx) for matcher in self.matchers)", "matchers of one filter combined with any"),
@@ -73,6 +74,8 @@ MUTANTS = [
     ("C12", "detect", UNIT, "            if ctx.has_to_stop:", "            if False and ctx.has_to_stop:", "stop request ignored before a request is sent"),
     ("C12", "detect", UNIT, "                    ctx.cache_outcome(case, exc)", "                    pass", "outcome cache not filled"),
     ("C12", "detect", "engine/phases/__init__.py", "return self.is_enabled and not ctx.has_to_stop", "return self.is_enabled and not ctx.is_interrupted", "phase runs although the failure limit was reached"),
+    ("C12", "detect", STATE, "            if engine.has_to_stop:\n                raise KeyboardInterrupt\n            try:\n                if config.execution.unique_inputs:", "            try:\n                if config.execution.unique_inputs:", "stateful step sends although a stop was requested"),
+    ("C12", "detect", STATE, "                    elif cached is None:\n                        return None\n                result = super().step(input)", "                result = super().step(input)", "stateful unique-inputs: an input seen passing is sent again"),
     # ---- C13
     ("C13", "detect", STATE, "            seed += 1\n", "            pass\n", "same seed for every suite"),
     ("C13", "detect", "generation/hypothesis/builder.py", "    if config.seed is not None:\n        hypothesis_test = hypothesis.seed(config.seed)(hypothesis_test)", "    if config.seed:\n        hypothesis_test = hypothesis.seed(config.seed)(hypothesis_test)", "seed 0 is not applied"),
